@@ -267,7 +267,6 @@ pub fn hard_link_unchecked(cache: &Path, sri: &Integrity, to: &Path) -> Result<(
 }
 
 pub fn hard_link(cache: &Path, sri: &Integrity, to: &Path) -> Result<()> {
-    hard_link_unchecked(cache, sri, to)?;
     let mut reader = open(cache, sri.clone())?;
     let mut buf = [0u8; 1024 * 8];
     loop {
@@ -282,6 +281,7 @@ pub fn hard_link(cache: &Path, sri: &Integrity, to: &Path) -> Result<()> {
         }
     }
     reader.check()?;
+    hard_link_unchecked(cache, sri, to)?;
     Ok(())
 }
 
